@@ -32,6 +32,8 @@ def units(tier):
     for kind in A.KINDS:
         us.append(("truncated_dates", kind))
     us.append(("strptime",))
+    for part in range(3):
+        us.append(("noise_recurrences", part))
     us.append(("times",))
     us.append(("text_times",))
     for h0 in range(-100, 101, 20):
@@ -497,6 +499,16 @@ def run_unit(unit, ctx):
                     for text in ("2015-12-31T06:31:01%s%02d:%02d" % (sign, zh, zm), "20151231T063101%s%02d%02d" % (sign, zh, zm)):
                         ctx.state_count += 1
                         _parse(ctx, parser, {"kind": "parse", "mode": "greg", "text": text}, {"part": "zone"}, text, zm < 60)
+    elif u == "noise_recurrences":
+        # start/second-point recurrences whose two points are one instant in two decimal spellings (the parser
+        # subtracts them to get the interval): a valid object or a ValueError, whatever the float noise
+        from isomc import collide
+        impl.set_mode(None)
+        for xd, yd in collide.noise_pairs(unit[1]):
+            x, y = impl.sstr(impl.build_point(xd)), impl.sstr(impl.build_point(yd))
+            for text in ("R/%s/%s" % (x, y), "R2/%s/%s" % (y, x)):
+                ctx.state_count += 1
+                check_text(ctx, text, "noise pair")
     elif u == "edits":
         impl.set_mode(None)
         for s in corpus()[unit[1]:unit[2]]:
